@@ -16,6 +16,7 @@ import (
 	"sort"
 	"strings"
 	"sync"
+	"sync/atomic"
 	"time"
 )
 
@@ -350,87 +351,95 @@ func solveUnit(vc *VC, opts SolveOpts) map[int]bool {
 	// Pass 1 (primary solver, sliced hypotheses, short timeout) in chunks, each
 	// chunk followed by the portfolio re-check of what it left open. A unit that
 	// already has more than 10 *confirmed* failures is not explored further.
-	confirmed := 0
-	nre := 0
+	// Chunks are independent solver processes: they run concurrently (bounded by
+	// chunkSem across all units of the run).
+	var confirmed, nre int64
+	var cwg sync.WaitGroup
 	for lo := 0; lo < len(idx); lo += 25 {
 		hi := lo + 25
 		if hi > len(idx) {
 			hi = len(idx)
 		}
-		if confirmed > 10 {
+		cwg.Add(1)
+		go func(lo, hi int) {
+			defer cwg.Done()
+			chunkSem <- struct{}{}
+			defer func() { <-chunkSem }()
+			if atomic.LoadInt64(&confirmed) > 10 {
+				for _, i := range idx[lo:hi] {
+					vc.obligs[i].Status, vc.obligs[i].Solver = "unknown", "not-attempted"
+				}
+				return
+			}
+			var cs strings.Builder
+			cs.WriteString("(set-option :smt.mbqi false)\n")
+			cs.WriteString(hdr)
 			for _, i := range idx[lo:hi] {
-				vc.obligs[i].Status, vc.obligs[i].Solver = "unknown", "not-attempted"
+				cs.WriteString(vc.slicedQuery(sl, vc.obligs[i], i))
 			}
-			continue
-		}
-		var cs strings.Builder
-		cs.WriteString("(set-option :smt.mbqi false)\n")
-		cs.WriteString(hdr)
-		for _, i := range idx[lo:hi] {
-			cs.WriteString(vc.slicedQuery(sl, vc.obligs[i], i))
-		}
-		res := runScript(primary, cs.String(), hi-lo, 2000)
-		for _, i := range idx[lo:hi] {
-			o := vc.obligs[i]
-			if r, ok := res[i]; ok {
-				o.Status, o.Solver, o.TimeS = r.status, primary.name, r.timeS
-			} else {
-				o.Status, o.Solver = "error", primary.name
+			res := runScript(primary, cs.String(), hi-lo, 2000)
+			for _, i := range idx[lo:hi] {
+				o := vc.obligs[i]
+				if r, ok := res[i]; ok {
+					o.Status, o.Solver, o.TimeS = r.status, primary.name, r.timeS
+				} else {
+					o.Status, o.Solver = "error", primary.name
+				}
 			}
-		}
-		var wg sync.WaitGroup
-		for _, i := range idx[lo:hi] {
-			o := vc.obligs[i]
-			if o.Status == "unsat" && !opts.AllSolvers {
-				continue
-			}
-			if o.Status != "unsat" {
-				nre++
-				if nre > opts.maxRecheck() {
-					o.Status, o.Solver = "unknown", "not-rechecked"
+			var wg sync.WaitGroup
+			for _, i := range idx[lo:hi] {
+				o := vc.obligs[i]
+				if o.Status == "unsat" && !opts.AllSolvers {
 					continue
 				}
-			}
-			wg.Add(1)
-			go func(o *Oblig) {
-				defer wg.Done()
-				// first on the sliced hypothesis set, then on the full one
-				recheck(vc, hdr+vc.slicedAsserts(sl, o), o, opts)
 				if o.Status != "unsat" {
-					recheck(vc, vc.preambleFor(flags, o, false), o, opts)
-				}
-				if o.Status != "unsat" {
-					o.Model = ""
-					// candidate counterexample from the quantifier-free weakening of the
-					// hypotheses (to be confirmed by replay on the real code)
-					keys := vc.modelKeys(vc.e, vc.unit)
-					var values []string
-					for _, k := range keys {
-						values = append(values, k.Term)
+					if atomic.AddInt64(&nre, 1) > int64(opts.maxRecheck()) {
+						o.Status, o.Solver = "unknown", "not-rechecked"
+						continue
 					}
-					st, model, _, _ := singleQuery(solvers[0], vc.preambleFor(flags, o, true), o, 5000, values)
-					if st == "sat" && len(keys) > 0 {
-						vals := parseModelOrdered(model)
-						mm := map[string]string{}
-						for i, k := range keys {
-							if i < len(vals) {
-								mm[k.Key] = vals[i]
-							}
+				}
+				wg.Add(1)
+				go func(o *Oblig) {
+					defer wg.Done()
+					// first on the sliced hypothesis set, then on the full one
+					recheck(vc, hdr+vc.slicedAsserts(sl, o), o, opts)
+					if o.Status != "unsat" {
+						recheck(vc, vc.preambleFor(flags, o, false), o, opts)
+					}
+					if o.Status != "unsat" {
+						o.Model = ""
+						// candidate counterexample from the quantifier-free weakening of the
+						// hypotheses (to be confirmed by replay on the real code)
+						keys := vc.modelKeys(vc.e, vc.unit)
+						var values []string
+						for _, k := range keys {
+							values = append(values, k.Term)
 						}
-						b, _ := json.Marshal(mm)
-						o.Model = string(b)
-						o.Note += "[candidate model from the quantifier-free weakening of the hypotheses]\n"
+						st, model, _, _ := singleQuery(solvers[0], vc.preambleFor(flags, o, true), o, 5000, values)
+						if st == "sat" && len(keys) > 0 {
+							vals := parseModelOrdered(model)
+							mm := map[string]string{}
+							for i, k := range keys {
+								if i < len(vals) {
+									mm[k.Key] = vals[i]
+								}
+							}
+							b, _ := json.Marshal(mm)
+							o.Model = string(b)
+							o.Note += "[candidate model from the quantifier-free weakening of the hypotheses]\n"
+						}
 					}
-				}
-			}(o)
-		}
-		wg.Wait()
-		for _, i := range idx[lo:hi] {
-			if vc.obligs[i].Status != "unsat" {
-				confirmed++
+				}(o)
 			}
-		}
+			wg.Wait()
+			for _, i := range idx[lo:hi] {
+				if vc.obligs[i].Status != "unsat" {
+					atomic.AddInt64(&confirmed, 1)
+				}
+			}
+		}(lo, hi)
 	}
+	cwg.Wait()
 	vc.premiseCheck(flags)
 	if opts.DumpDir != "" {
 		for _, i := range idx {
@@ -447,6 +456,9 @@ func solveUnit(vc *VC, opts SolveOpts) map[int]bool {
 }
 
 var solverSem = make(chan struct{}, 24)
+
+// chunkSem bounds the number of pass-1 solver processes of the whole run.
+var chunkSem = make(chan struct{}, 16)
 
 func recheck(vc *VC, pre string, o *Oblig, opts SolveOpts) {
 	type ans struct {
